@@ -14,6 +14,9 @@ def boolOf (s : String) : Option Bool :=
 
 def b01 (b : Bool) : String := if b then "1" else "0"
 
+def procStatusName : ProcStatus → String
+  | .failed => "Failed" | .cancelled => "Cancelled" | .succeeded => "Succeeded" | .skipped => "Skipped" | .unknown => "Unknown"
+
 def kindsOf (s : String) : Option (List Kind) :=
   if s == "." then some [] else (s.splitOn ",").mapM kindOf
 
@@ -51,6 +54,42 @@ def step (line : String) : String :=
       | some f => b01 (f k)
       | none => "unknown"
     | none => "bad-op"
+  | ["proc", how, n] =>
+    match n.toNat? with
+    | some n =>
+      let e : Option ChildEnd := if how == "exit" then some (.exited n) else if how == "sig" then some (.signaled n false) else none
+      match e with
+      | some e => s!"raw={e.encode} status={procStatusName (waitProcStatus e.encode)}"
+      | none => "bad-op"
+    | none => "bad-op"
+  | ["life", amo, exist, steps] =>
+    match boolOf amo, boolOf exist with
+    | some amo, some exist =>
+      let rec go (l : Life) (ss : List String) (acc : List String) : Option (List String) :=
+        match ss with
+        | [] => some acc.reverse
+        | s :: ss =>
+          if s == "s" then (l.step false .start).bind fun l' => go l' ss acc
+          else if s == "x" then
+            let o := match execute2 amo (!exist) l with
+              | .run => "run"
+              | .update => "update"
+              | .skip k _ => s!"skip={k.ord}"
+            go l ss (o :: acc)
+          else
+            match kindOf (s.drop 1).toString with
+            | some k =>
+              let st : Option LifeStep := if s.startsWith "p" then some (.prior k) else if s.startsWith "v" then some (.input k) else none
+              match st with
+              | some st => match l.step false st with
+                | some l' => go l' ss acc
+                | none => some ["unreachable"]
+              | none => none
+            | none => none
+      match go Life.init (steps.splitOn ",") [] with
+      | some outs => ";".intercalate outs
+      | none => "bad-op"
+    | _, _ => "bad-op"
   | ["kind", k] => match kindOf k with | some k => k.name | none => "none"
   | _ => "bad-op"
 
